@@ -449,12 +449,16 @@ FOLD_FNS = [
     ("base::name::label::Label::compose_canonical", True),
     ("base::name::label::Label::make_canonical", True),
     ("base::name::label::Label::to_canonical", True),
+    ("base::name::label::Label::lowercase_composed_cmp", True),
+    # the order of the *wire* form: names that the canonical form keeps as they are (RFC 6840 5.1: NSEC next name, SVCB
+    # target, TSIG algorithm ...) are compared with this one; it must not fold
+    ("base::name::label::Label::composed_cmp", False),
 ]
 
 
 def rule_fold(ctx, F):
     R = "C04.fold"
-    ctx.floor(R, 6)
+    ctx.floor(R, 8)
     for p, must in FOLD_FNS:
         bs = [b for q, b in F.bodies.items() if q == p or q.startswith(p.replace("::compose_canonical", "::compose_canonical::<"))]
         if not bs:
@@ -463,6 +467,12 @@ def rule_fold(ctx, F):
             continue
         b = bs[0]
         lo, up = _fold_calls(F, b)
+        if not must:
+            ctx.ob(R, b, "compares the octets as they are (no case folding)", not lo and not up,
+                   "label %s is the case-sensitive octet order of the wire form but reaches the folding primitive(s) %s: names "
+                   "that the canonical form writes verbatim compare equal (or in the wrong order) when they differ in case"
+                   % (p.split("::")[-1], sorted(lo | up)))
+            continue
         ok = bool(lo) and not up
         ctx.ob(R, b, "folds case with ASCII lower-casing only", ok,
                "label %s must fold case with the lower-casing primitives the canonical wire form uses "
